@@ -258,7 +258,10 @@ class EngineSim(TreeSim):
             if kind == "frame":
                 rows = v.get("rows")
                 ridx = idx if rows is None else pd.DatetimeIndex([pd.Timestamp(d) for d in rows])
-                out[k] = pd.DataFrame(np.array([[float("nan") if x is None else x for x in r] for r in v["data"]], dtype=v.get("dtype", float)).reshape(len(ridx), len(v["cols"])), index=ridx, columns=v["cols"])
+                if v.get("dtype") == "object":
+                    out[k] = pd.DataFrame([list(r) for r in v["data"]], index=ridx, columns=v["cols"])
+                else:
+                    out[k] = pd.DataFrame(np.array([[float("nan") if x is None else x for x in r] for r in v["data"]], dtype=v.get("dtype", float)).reshape(len(ridx), len(v["cols"])), index=ridx, columns=v["cols"])
             elif kind == "series":
                 rows = v.get("rows")
                 ridx = idx if rows is None else pd.DatetimeIndex([pd.Timestamp(d) for d in rows])
